@@ -468,3 +468,69 @@ func init() {
 			return obs
 		}})
 }
+
+func init() {
+	register(&Rule{ID: "PARSE.number-conversion", Floor: 3,
+		Doc: "the reader converts a numeric literal by handing the token's own, complete text (sign included) to strconv.ParseInt / ParseFloat: the argument is p.TokenText() or a local defined only by it — never a trimmed or re-sliced text, and never an unsigned or magnitude parse followed by a negation, which cannot represent the most negative integer (-9223372036854775808 must read back)",
+		Run: func(c *Ctx) []Obligation {
+			tokText := c.LookupMethod("parser/rdparser.Parser.TokenText")
+			if tokText == nil {
+				return []Obligation{anchorMissing("PARSE.number-conversion", "rdparser.Parser.TokenText")}
+			}
+			var obs []Obligation
+			for _, u := range c.Funcs(func(p string) bool { return rel(p) == "parser/rdparser" }) {
+				info := u.Pkg.TypesInfo
+				ord := &ordinal{}
+				isTokenText := func(e ast.Expr) bool {
+					e = ast.Unparen(e)
+					if ce, ok := e.(*ast.CallExpr); ok && originOf(Callee(info, ce)) == tokText {
+						return true
+					}
+					if o := identObj(info, e); o != nil {
+						ndef, okAll := 0, true
+						ast.Inspect(u.Decl.Body, func(n ast.Node) bool {
+							as, ok := n.(*ast.AssignStmt)
+							if !ok || len(as.Lhs) != len(as.Rhs) {
+								return true
+							}
+							for i, l := range as.Lhs {
+								if identObj(info, l) == o {
+									ndef++
+									ce, ok := ast.Unparen(as.Rhs[i]).(*ast.CallExpr)
+									if !ok || originOf(Callee(info, ce)) != tokText {
+										okAll = false
+									}
+								}
+							}
+							return true
+						})
+						return ndef > 0 && okAll
+					}
+					return false
+				}
+				ast.Inspect(u.Decl.Body, func(n ast.Node) bool {
+					ce, ok := n.(*ast.CallExpr)
+					if !ok {
+						return true
+					}
+					fn := Callee(info, ce)
+					if fn == nil || fn.Pkg() == nil || fn.Pkg().Path() != "strconv" || len(ce.Args) == 0 {
+						return true
+					}
+					switch fn.Name() {
+					case "ParseInt", "ParseFloat", "Atoi":
+						construct := ord.next("strconv." + fn.Name())
+						if isTokenText(ce.Args[0]) {
+							obs = append(obs, mkOb(c, "PARSE.number-conversion", u, construct, ce, Proved, "applied to the token's own text", true))
+						} else {
+							obs = append(obs, mkOb(c, "PARSE.number-conversion", u, construct, ce, Violated, "the literal is converted from `"+types.ExprString(ce.Args[0])+"`, not from the token's complete text: a conversion of the magnitude followed by a negation cannot read -9223372036854775808", true))
+						}
+					case "ParseUint":
+						obs = append(obs, mkOb(c, "PARSE.number-conversion", u, ord.next("strconv.ParseUint"), ce, Violated, "an unsigned parse in the reader: the sign is applied afterwards, so the most negative integer cannot be read", true))
+					}
+					return true
+				})
+			}
+			return obs
+		}})
+}
